@@ -79,7 +79,7 @@ theorem afterResize_zero (pp : PP) (c : Cursor) (sect : Section) : pp.afterResiz
 theorem resize_write (pp : PP) (c : Cursor) (sect : Section) (pre old rest post name : Bytes)
     (hpk : pp.packet = pre ++ (old ++ rest) ++ post) (hoff : c.offset = some pre.length)
     (hcs : c.currentSection pp = .ok sect) (hnx : c.offsetNext ≤ pp.packet.length) (hcur : old.length ≤ c.offsetNext)
-    (hsize : pp.packet.length + name.length - old.length ≤ 65535) :
+    (hsize : old.length < name.length → pp.packet.length + name.length - old.length ≤ 65535) :
     ∃ x, resizeRR pp c (Int.ofNat name.length - Int.ofNat old.length) =
         .ok { pp := pp.afterResize c sect (Int.ofNat name.length - Int.ofNat old.length) x,
               cur := { c with offsetNext := c.offsetNext + name.length - old.length }, result := none } ∧
@@ -121,7 +121,8 @@ theorem resize_write (pp : PP) (c : Cursor) (sect : Section) (pre old rest post 
     rw [e]
     refine ⟨pp.packet.take pre.length ++ (pp.packet.drop pre.length).take (name.length - old.length) ++
       List.replicate (name.length - old.length - (pp.packet.length - pre.length)) 0 ++ pp.packet.drop pre.length, ?_, ?_⟩
-    · have := resizeRR_grow pp c pre.length (name.length - old.length) sect hoff (by omega) (by omega) (by omega) hnx hcs
+    · have hsz := hsize hgt
+      have := resizeRR_grow pp c pre.length (name.length - old.length) sect hoff (by omega) (by omega) (by omega) hnx hcs
       rw [this]
       congr 3
       omega
@@ -199,7 +200,8 @@ theorem PlainObj.set_name {pp : PP} (P : PlainObj pp) (sec : Section) (hs : sec.
     (hoff : c.offset = some (P.start sec + ps1.flatten.length))
     (hnext : c.offsetNext = P.start sec + ps1.flatten.length + rc.length) (hne : c.nameEnd = ne) (hsec : c.sec = sec)
     (h41 : get16 pp.packet ne ≠ 41) (owner' : List (List UInt8)) (hgo' : GoodLabels owner')
-    (hsize : pp.packet.length + (labSum owner' + 1) - (ne - (P.start sec + ps1.flatten.length)) ≤ 65535) :
+    (hsize : ne - (P.start sec + ps1.flatten.length) < labSum owner' + 1 →
+      pp.packet.length + (labSum owner' + 1) - (ne - (P.start sec + ps1.flatten.length)) ≤ 65535) :
     ∃ (owner : List (List UInt8)) (f8 rd : Bytes) (pp' : PP) (P' : PlainObj pp'),
       rc = (encLabels owner ++ [0]) ++ f8 ++ put16 rd.length ++ rd ∧
       setRawName pp c (encLabels owner' ++ [0]) =
@@ -237,7 +239,7 @@ theorem PlainObj.set_name {pp : PP} (P : PlainObj pp) (sec : Section) (hs : sec.
     rw [hrc]; simp only [List.length_append, List.length_cons, List.length_nil, encLabels_length]; omega
   obtain ⟨x, hres, hwr⟩ := resize_write pp1 c sec pre (encLabels owner ++ [0]) (f8 ++ put16 rd.length ++ rd) post (encLabels owner' ++ [0])
     hpk1 (by rw [hprel]; exact hoff) hcs (by show c.offsetNext ≤ pp.packet.length; omega) (by rw [holdl]; omega)
-    (by show pp.packet.length + _ - _ ≤ 65535; rw [holdl, hnewl]; omega)
+    (by rw [holdl, hnewl]; intro hg; show pp.packet.length + _ - _ ≤ 65535; have := hsize (by omega); omega)
   rw [holdl, hnewl] at hres
   -- the object after the write
   let pp2 : PP := { pp1.afterResize c sec (Int.ofNat (labSum owner' + 1) - Int.ofNat (labSum owner + 1)) x with
